@@ -155,6 +155,19 @@ Fixpoint r_random_scalar_fuel (fuel : nat) (tape : bytes) : option (Z * bytes) :
 Definition r_random_scalar (tape : bytes) : option (Z * bytes) :=
   r_random_scalar_fuel (S (length tape / 64)) tape.
 
+(* ---- ristretto255 elements represented by their canonical 32-byte encoding.
+   Every operation decodes, computes in extended coordinates and re-encodes, so that
+   equality of group elements is equality of byte strings (the quotient by the
+   projective / coset representation is taken once, here). *)
+Definition rb_valid (b : bytes) : bool :=
+  match r_deser_gen false b with Some _ => true | None => false end.
+Definition rb_point (b : bytes) : epoint :=
+  match r_deser_gen true b with Some P => P | None => e_identity end.
+Definition rb_mul (b : bytes) (k : Z) : bytes := r_ser (r_mul (rb_point b) k).
+Definition rb_deser (b : bytes) : option bytes := if rb_valid b then Some b else None.
+Definition rb_identity : bytes := zeros 32.
+Definition rb_hash_to_curve (h : HashOps) (msg dst : bytes) : bytes := r_ser (r_hash_to_curve h msg dst).
+
 (* the ristretto basepoint: the edwards25519 basepoint, y = 4/5 with even x *)
 Definition r_base : epoint :=
   let by_ := fm (4 * finv p25519 5) in
